@@ -276,6 +276,54 @@ impl SimDisk {
         res.map(|_| p)
     }
 
+    /// rename(2) of a regular file; faults planned for writes to the destination apply
+    pub fn rename(&mut self, from: &Path, to: &Path) -> io::Result<()> {
+        let (f, t) = (normalize(from), normalize(to));
+        self.writes += 1;
+        let count = {
+            let c = self.write_counts.entry(t.clone()).or_insert(0);
+            *c += 1;
+            *c
+        };
+        let res = match self.fault_for(&t, Op::Write, count) {
+            Some(FaultKind::Truncate(_)) | Some(FaultKind::Replace(_)) | None => Ok(()),
+            Some(k) => Err(os_err(&k)),
+        };
+        let res = res.and_then(|_| {
+            if !self.files.contains_key(&f) {
+                return Err(io::Error::from_raw_os_error(2));
+            }
+            if self.dirs.contains(&t) {
+                return Err(io::Error::from_raw_os_error(21));
+            }
+            let parent_ok = match t.parent() {
+                Some(d) => d.as_os_str().is_empty() || self.dirs.contains(d),
+                None => true,
+            };
+            if !parent_ok {
+                return Err(io::Error::from_raw_os_error(2));
+            }
+            let data = self.files.remove(&f).unwrap();
+            self.files.insert(t.clone(), data);
+            self.written.insert(t.clone());
+            Ok(())
+        });
+        self.log.push(format!("rename {} -> {} : {}", f.display(), t.display(), if res.is_ok() { "ok" } else { "err" }));
+        res
+    }
+
+    /// unlink(2)
+    pub fn unlink(&mut self, path: &Path) -> io::Result<()> {
+        let p = normalize(path);
+        if self.dirs.contains(&p) {
+            return Err(io::Error::from_raw_os_error(21));
+        }
+        match self.files.remove(&p) {
+            Some(_) => Ok(()),
+            None => Err(io::Error::from_raw_os_error(2)),
+        }
+    }
+
     /// positional write used by the shim's File (offset is tracked there)
     pub fn write_at(&mut self, p: &Path, offset: usize, data: &[u8]) -> io::Result<usize> {
         let count = {
